@@ -40,4 +40,136 @@ def unit1Calls : List (String × String × String × String) := [
   ("TaggedBlock", "_length_format", "<none>", "")
 ]
 
+/-! ### unit 2: fixed-layout payloads of base.py / tagged_blocks.py / color.py -/
+
+def sectionDividerKinds : List Nat := [0, 1, 2, 3]
+def sheetColors : List Nat := [0, 1, 2, 3, 4, 5, 6, 7, 8, 9, 10, 11]
+def colorSpaceLab : Nat := 7
+def metadataSignatures : List (List UInt8) := [[56, 66, 73, 77], [56, 69, 76, 69]]
+def metadataIntKeys : List (List UInt8) := [[109, 100, 121, 110], [115, 103, 114, 112]]
+def metadataDescriptorKeys : List (List UInt8) := [[99, 109, 108, 115], [99, 117, 115, 116], [101, 120, 116, 110], [109, 108, 115, 116], [115, 103, 114, 112], [116, 109, 108, 110]]
+def annotationKinds : List (List UInt8) := [[116, 120, 116, 65], [115, 110, 100, 77]]
+def annotationMarkers : List (List UInt8) := [[116, 120, 116, 67], [115, 110, 100, 77]]
+def unit2Registry : List (List UInt8 × String) := [
+  ([65, 110, 110, 111], "Annotations"),
+  ([70, 77, 115, 107], "FilterMask"),
+  ([76, 77, 115, 107], "UserMask"),
+  ([77, 116, 49, 54], "EmptyElement"),
+  ([77, 116, 51, 50], "EmptyElement"),
+  ([77, 116, 114, 110], "EmptyElement"),
+  ([80, 120, 83, 68], "PixelSourceData2"),
+  ([98, 114, 115, 116], "ChannelBlendingRestrictionsSetting"),
+  ([99, 108, 98, 108], "ByteElement"),
+  ([102, 102, 120, 105], "Bytes"),
+  ([102, 120, 114, 112], "ReferencePoint"),
+  ([105, 79, 112, 97], "ByteElement"),
+  ([105, 110, 102, 120], "ByteElement"),
+  ([107, 110, 107, 111], "ByteElement"),
+  ([108, 99, 108, 114], "SheetColorSetting"),
+  ([108, 109, 103, 109], "ByteElement"),
+  ([108, 110, 115, 114], "Bytes"),
+  ([108, 115, 99, 116], "SectionDividerSetting"),
+  ([108, 115, 100, 107], "SectionDividerSetting"),
+  ([108, 115, 112, 102], "ProtectedSetting"),
+  ([108, 117, 110, 105], "StringElement"),
+  ([108, 121, 105, 100], "IntegerElement"),
+  ([108, 121, 118, 114], "IntegerElement"),
+  ([110, 118, 114, 116], "EmptyElement"),
+  ([112, 97, 116, 116], "EmptyElement"),
+  ([112, 111, 115, 116], "ShortIntegerElement"),
+  ([115, 104, 109, 100], "MetadataSettings"),
+  ([115, 110, 50, 80], "IntegerElement"),
+  ([116, 104, 114, 115], "ShortIntegerElement"),
+  ([116, 115, 108, 121], "ByteElement"),
+  ([118, 109, 103, 109], "ByteElement"),
+  ([118, 111, 119, 118], "IntegerElement")
+]
+def unit2Calls : List (String × String × String × String) := [
+  ("EmptyElement", "read", "<none>", ""),
+  ("EmptyElement", "write", "<none>", ""),
+  ("NumericElement", "read", "read_fmt", "'d', fp"),
+  ("NumericElement", "write", "write_fmt", "fp, 'd', self.value"),
+  ("IntegerElement", "read", "read_fmt", "'I', fp"),
+  ("IntegerElement", "write", "write_fmt", "fp, 'I', self.value"),
+  ("ShortIntegerElement", "read", "read_fmt", "'H2x', fp"),
+  ("ShortIntegerElement", "read", "read_fmt", "'H', fp"),
+  ("ShortIntegerElement", "write", "write_fmt", "fp, 'H2x', self.value"),
+  ("ByteElement", "read", "read_fmt", "'B3x', fp"),
+  ("ByteElement", "read", "read_fmt", "'B', fp"),
+  ("ByteElement", "write", "write_fmt", "fp, 'B3x', self.value"),
+  ("BooleanElement", "read", "read_fmt", "'?3x', fp"),
+  ("BooleanElement", "read", "read_fmt", "'?', fp"),
+  ("BooleanElement", "write", "write_fmt", "fp, '?3x', self.value"),
+  ("StringElement", "read", "read_unicode_string", "fp, padding=padding"),
+  ("StringElement", "write", "write_unicode_string", "fp, self.value, padding=padding"),
+  ("Color", "read", "read_fmt", "'H', fp"),
+  ("Color", "read", "read_fmt", "'4h', fp"),
+  ("Color", "read", "read_fmt", "'4H', fp"),
+  ("Color", "write", "write_fmt", "fp, 'H', id"),
+  ("Color", "write", "write_fmt", "fp, '4h', *self.values"),
+  ("Color", "write", "write_fmt", "fp, '4H', *self.values"),
+  ("Bytes", "read", "<none>", ""),
+  ("Bytes", "write", "write_bytes", "fp, self.value"),
+  ("ProtectedSetting", "read", "<inherited>", ""),
+  ("ProtectedSetting", "write", "<inherited>", ""),
+  ("SheetColorSetting", "read", "read_fmt", "'H6x', fp"),
+  ("SheetColorSetting", "write", "write_fmt", "fp, 'H6x', self.value.value"),
+  ("ReferencePoint", "read", "read_fmt", "'2d', fp"),
+  ("ReferencePoint", "write", "write_fmt", "fp, '2d', *self._items"),
+  ("SectionDividerSetting", "read", "read_fmt", "'I', fp"),
+  ("SectionDividerSetting", "read", "is_readable", "fp, 8"),
+  ("SectionDividerSetting", "read", "read_fmt", "'4s', fp"),
+  ("SectionDividerSetting", "read", "read_fmt", "'4s', fp"),
+  ("SectionDividerSetting", "read", "is_readable", "fp, 4"),
+  ("SectionDividerSetting", "read", "read_fmt", "'I', fp"),
+  ("SectionDividerSetting", "write", "write_fmt", "fp, 'I', self.kind.value"),
+  ("SectionDividerSetting", "write", "write_fmt", "fp, '4s4s', self.signature, self.blend_mode.value"),
+  ("SectionDividerSetting", "write", "write_fmt", "fp, 'I', self.sub_type"),
+  ("UserMask", "read", "read_fmt", "'HBx', fp"),
+  ("UserMask", "write", "write_fmt", "fp, 'HBx', self.opacity, self.flag"),
+  ("FilterMask", "read", "read_fmt", "'H', fp"),
+  ("FilterMask", "write", "write_fmt", "fp, 'H', self.opacity"),
+  ("ChannelBlendingRestrictionsSetting", "read", "is_readable", "fp, 4"),
+  ("ChannelBlendingRestrictionsSetting", "read", "read_fmt", "'I', fp"),
+  ("ChannelBlendingRestrictionsSetting", "write", "write_fmt", "fp, '%dI' % len(self), *self._items"),
+  ("MetadataSettings", "read", "read_fmt", "'I', fp"),
+  ("MetadataSettings", "write", "write_fmt", "fp, 'I', len(self)"),
+  ("MetadataSetting", "read", "read_fmt", "'4s', fp"),
+  ("MetadataSetting", "read", "read_fmt", "'4s?3x', fp"),
+  ("MetadataSetting", "read", "read_length_block", "fp"),
+  ("MetadataSetting", "read", "read_fmt", "'I', f"),
+  ("MetadataSetting", "write", "write_fmt", "fp, '4s4s?3x', self.signature, self.key, self.copy_on_sheet"),
+  ("MetadataSetting", "write", "write_fmt", "fp, 'I', self.data"),
+  ("MetadataSetting", "write", "write_bytes", "f, self.data"),
+  ("MetadataSetting", "write", "write_length_block", "fp, writer"),
+  ("PixelSourceData2", "read", "is_readable", "fp, 8"),
+  ("PixelSourceData2", "read", "read_length_block", "fp, fmt='Q'"),
+  ("PixelSourceData2", "write", "write_length_block", "fp, lambda f, item=item: write_bytes(f, item), fmt='Q'"),
+  ("PixelSourceData2", "write", "write_bytes", "f, item"),
+  ("PixelSourceData2", "write", "write_padding", "fp, written, padding"),
+  ("Annotations", "read", "read_fmt", "'2HI', fp"),
+  ("Annotations", "read", "read_fmt", "'I', fp"),
+  ("Annotations", "write", "write_fmt", "fp, '2HI', self.major_version, self.minor_version, len(self)"),
+  ("Annotations", "write", "write_fmt", "fp, 'I', len(data) + 4"),
+  ("Annotations", "write", "write_bytes", "fp, data"),
+  ("Annotations", "write", "write_padding", "fp, written, 4"),
+  ("Annotation", "read", "read_fmt", "'4s2BH', fp"),
+  ("Annotation", "read", "read_fmt", "'4i', fp"),
+  ("Annotation", "read", "read_fmt", "'4i', fp"),
+  ("Annotation", "read", "read_pascal_string", "fp, 'macroman', padding=2"),
+  ("Annotation", "read", "read_pascal_string", "fp, 'macroman', padding=2"),
+  ("Annotation", "read", "read_pascal_string", "fp, 'macroman', padding=2"),
+  ("Annotation", "read", "read_fmt", "'I4s', fp"),
+  ("Annotation", "read", "read_length_block", "fp"),
+  ("Annotation", "write", "write_fmt", "fp, '4s2BH', self.kind, self.is_open, self.flags, self.optional_blocks"),
+  ("Annotation", "write", "write_fmt", "fp, '4i', *self.icon_location"),
+  ("Annotation", "write", "write_fmt", "fp, '4i', *self.popup_location"),
+  ("Annotation", "write", "write_pascal_string", "fp, self.author, 'macroman', padding=2"),
+  ("Annotation", "write", "write_pascal_string", "fp, self.name, 'macroman', padding=2"),
+  ("Annotation", "write", "write_pascal_string", "fp, self.mod_date, 'macroman', padding=2"),
+  ("Annotation", "write", "write_fmt", "fp, 'I4s', len(self.data) + 12, self.marker"),
+  ("Annotation", "write", "write_length_block", "fp, lambda f: write_bytes(f, self.data)"),
+  ("Annotation", "write", "write_bytes", "f, self.data")
+]
+
 end PsdVerif.Payload.Tables
